@@ -360,6 +360,7 @@ func (conn *Tunnel) pushInbound(msg cemi.Message) {
 	case conn.inbound <- msg:
 
 	default:
+		verifTrace("tunnel-parked")
 		go func() {
 			// Since this goroutine decouples from the server goroutine, it might try to send when
 			// the server closed the inbound channel. Sending to a closed channel will panic. But we
